@@ -350,6 +350,8 @@ func oldQueryRule(p *Program, r *Reporter, h *ssa.Function) {
 						switch c.Call.StaticCallee().String() {
 						case "(time.Time).Format", "(time.Time).AppendFormat", "(time.Time).String":
 							formats = append(formats, c.Call.StaticCallee().String()+" at "+p.pos(c.Pos()))
+						case "(*net/url.URL).Query", "net/url.ParseQuery":
+							fromRaw = true // the parsed form of the request's query
 						}
 					}
 					if f, ok := loadedField(x); ok && f == "url.URL.RawQuery" {
